@@ -3,6 +3,7 @@
    Script (one command per line, words separated by blanks; names contain no blanks, commas or colons).  A PARENT
    INSTANCE is named by the path of node names leading to it (/Base/Zone1/Sol2 ...); each instance is one Mirror.parent.
      w <path> <parent label> <label> <name> <payload>   create / overwrite by name            -> "w <status> <index | 0>"
+     u <path> <parent label> <label> <name> <payload>   create / rewrite the array IN PLACE    -> "w <status> <index | 0>"
      d <path> <parent label> <name>                     cg_delete_node(name) at that position   -> "d <status>"
      v <path> <parent label> <label>                    the session view of one kind            -> "v <n> name:payload,..."
      reopen ...                                         cg_close + cg_open: every instance      -> "o 0"
@@ -76,9 +77,9 @@ let run () =
     let line = input_line stdin in
     let ws = Stdlib.List.filter (fun w -> w <> "") (Stdlib.String.split_on_char ' ' (Stdlib.String.trim line)) in
     (match ws with
-    | ["w"; path; _pl; label; name; p] ->
+    | [("w" | "u") as c; path; _pl; label; name; p] ->
         let s = get path in
-        let ((s', st), idx) = write s (cs label) (cs name) (z_of_int (int_of_string p)) in
+        let ((s', st), idx) = (if c = "w" then write else write_inplace) s (cs label) (cs name) (z_of_int (int_of_string p)) in
         Hashtbl.replace insts path s';
         drop_below (join path name);
         let st = int_of_z st in
